@@ -57,6 +57,7 @@ HEADER = ("From Coq Require Import List ZArith Bool PrimFloat.\n"
           "Import ListNotations.\nOpen Scope float_scope.\n")
 IMPL = os.path.join(F.VERIF, "tools", "impl", "c09_impl.py")
 FINDING_KIND = "homeostasis_negative_depression"
+CARRY_KIND = "homeostasis_target_carryover"
 
 TRAINERS = ["STDP", "StableSTDP", "TripletSTDP", "StableTripletSTDP", "MSTDP", "MSTDPET"]
 TWO_FACTOR = ("STDP", "StableSTDP", "TripletSTDP", "StableTripletSTDP")
@@ -197,18 +198,45 @@ def gen_homeo(rng, force=None):
     return case
 
 
-def homeo_targets(case, units):
-    tg = case["target"]
+def homeo_tg(case, t, which="used"):
+    """the target of step t: "used" = the one the code reads (mirrors forward(), including its carry-over of the first
+    cell's default to the later cells of a group), "doc" = the documented one (explicit forward target, else the cell's
+    own default).  Single cells: the one target of the case."""
+    if "tg_used" in case:
+        return case["tg_" + which][t]
+    return case["target"]
+
+
+def homeo_targets(case, units, t=0, which="used"):
+    tg = homeo_tg(case, t, which)
     return [[(tg[u] if isinstance(tg, list) else tg) for u in units] for _ in range(case["B"])]
 
 
 def q_homeo(case, units):
-    tg = F.coq_list([F.coq_list([q(x) for x in row]) for row in homeo_targets(case, units)])
-    steps = F.coq_list([F.coq_list(["[" + "; ".join(str(int(sb[u])) for u in units) + "]%Z" for sb in st])
-                        for st in case["post"]])
+    steps = []
+    for t, st in enumerate(case["post"]):
+        tg = F.coq_list([F.coq_list([q(x) for x in row]) for row in homeo_targets(case, units, t)])
+        sp = F.coq_list(["[" + "; ".join(str(int(sb[u])) for u in units) + "]%Z" for sb in st])
+        steps.append(f"({tg}, {sp})")
     red = REDK[case.get("reduction") or "mean"]
     p = {"weight": 0, "bias": 1, "delay": 2}[case["param"]]
-    return (f"run_homeo {red}%Z {p}%Z {q(case['plasticity'])} {tg} {steps} {q_bind(case.get('bound'))} {q(case['x0'])}")
+    return (f"run_homeo_v {red}%Z {p}%Z {q(case['plasticity'])} {F.coq_list(steps)} {q_bind(case.get('bound'))} {q(case['x0'])}")
+
+
+def annotate_homeo_group(defaults, cells):
+    """per cell and step the target the code uses and the documented one (None: RuntimeError expected)"""
+    T = len(cells[0]["post"])
+    fwd = cells[0].get("fwd_targets") or [None] * T
+    dflt = [(c["target_reg"] if "target" in c.get("override_keys", []) else defaults.get("target_ctor")) for c in cells]
+    for c in cells:
+        c["tg_used"], c["tg_doc"] = [], []
+    for t in range(T):
+        cur = fwd[t]
+        for c, d in zip(cells, dflt):
+            if cur is None:
+                cur = d            # forward(): `if target is None: target = state.target` rebinds the argument
+            c["tg_used"].append(cur)
+            c["tg_doc"].append(fwd[t] if fwd[t] is not None else d)
 
 
 def red_apply(name, xs):
@@ -276,7 +304,7 @@ def oracle_homeo(case, impl):
     fails = []
     acc_p = [0.0] * len(e2g)
     acc_n = [0.0] * len(e2g)
-    seen_finding = False
+    seen_finding = seen_carry = False
     for t in range(T):
         for b in range(B):
             for u in range(n_tot):
@@ -284,25 +312,45 @@ def oracle_homeo(case, impl):
         st = impl["steps"][t]
         pos, neg = decl(st["pos"]), decl(st["neg"])
         for g, units in enumerate(groups):
-            tg = homeo_targets(case, units)
-            # documented per-sample term: (+-)lambda * mean over the receptive units of (r* - r) / r*
-            ks = [sgn * lam * math.fsum((tg[b][j] - counts[b][u] / (t + 1)) / tg[b][j] for j, u in enumerate(units)) / len(units)
-                  for b in range(B)]
-            want_p = red_apply(red, [max(k, 0.0) for k in ks])          # potentiating part of the documented split
-            want_n = red_apply(red, [max(-k, 0.0) for k in ks])         # depressing MAGNITUDE of the documented split
-            clampmax = red_apply(red, [min(k, 0.0) for k in ks])        # the negative-valued pattern of the known finding
+            def expect(which):
+                tg = homeo_targets(case, units, t, which)
+                # documented per-sample term: (+-)lambda * mean over the receptive units of (r* - r) / r*
+                ks = [sgn * lam * math.fsum((tg[b][j] - counts[b][u] / (t + 1)) / tg[b][j] for j, u in enumerate(units)) / len(units)
+                      for b in range(B)]
+                return (ks, red_apply(red, [max(k, 0.0) for k in ks]),     # potentiating part of the documented split
+                        red_apply(red, [max(-k, 0.0) for k in ks]),        # depressing MAGNITUDE of the documented split
+                        red_apply(red, [min(k, 0.0) for k in ks]))         # negative-valued pattern of the known finding
+            ks, want_p, want_n, clampmax = expect("doc")
+            carried = homeo_tg(case, t, "used") != homeo_tg(case, t, "doc")
             for e in [e for e, gg in enumerate(e2g) if gg == g]:
                 gp = 0.0 if pos is None else pos[e]
                 gn = 0.0 if neg is None else neg[e]
                 acc_p[e] += gp
                 acc_n[e] += gn
-                if not F.close(gp, want_p, ab=1e-11):
+                ok_p = F.close(gp, want_p, ab=1e-11)
+                ok_n = F.close(gn, want_n, ab=1e-11) and gn >= 0
+                pat_n = F.close(gn, clampmax, ab=1e-11)
+                if not (ok_p and (ok_n or pat_n)) and carried:
+                    _, up, un, uc = expect("used")
+                    if F.close(gp, up, ab=1e-11) and (F.close(gn, un, ab=1e-11) or F.close(gn, uc, ab=1e-11)):
+                        if not seen_carry:
+                            seen_carry = True
+                            fails.append(({"what": "forward(target=None): the cell's own default target is ignored, the default of "
+                                                   "the first cell of the trainer is used instead (forward rebinds its `target` "
+                                                   "argument inside the loop over cells)", "step": t, "element": e,
+                                           "cell_default_target": homeo_tg(case, t, "doc"),
+                                           "target_used": homeo_tg(case, t, "used"), "pos_part": gp,
+                                           "pos_part_for_own_target": want_p},
+                                          {"kind": CARRY_KIND, "param": param}))
+                        continue
+                if not ok_p:
                     fails.append(({"what": "potentiating part differs from max(k, 0) of the documented rule", "step": t,
-                                   "element": e, "got": gp, "want": want_p}, {"kind": "homeostasis_pos_part", "param": param}))
+                                   "element": e, "got": gp, "want": want_p, "target": homeo_tg(case, t, "doc")},
+                                  {"kind": "homeostasis_pos_part", "param": param}))
                     return fails
-                if F.close(gn, want_n, ab=1e-11) and gn >= 0:
+                if ok_n:
                     continue
-                if F.close(gn, clampmax, ab=1e-11):     # (amax: the pattern may be 0 where a magnitude was due)
+                if pat_n:     # (amax: the pattern may be 0 where a magnitude was due)
                     if not seen_finding:
                         seen_finding = True
                         above = all(k * sgn * (1 if lam >= 0 else -1) < 0 for k in ks)
@@ -559,9 +607,160 @@ def gen_cell(rng, cls, signs):
     return c
 
 
+# ------------------------------------------------------------------ groups: ONE trainer object, several cells with overrides
+def gen_homeo_group(rng, gid, expect_error=False):
+    """one LinearHomeostasis object driving 2-3 cells registered with per-cell keyword overrides of plasticity / target /
+    param / batch_reduction (one cell without overrides, one whose plasticity override has the opposite sign), with every
+    combination of constructor target (None | value), per-cell target (absent | None | value) and explicit forward target
+    per step (None | value).  Cells hold their EFFECTIVE hyperparameters."""
+    defaults = {"plasticity": rng.choice(LAMS), "param": rng.choice(["weight", "weight", "bias", "delay"]),
+                "reduction": rng.choice([None, None, "mean", "sum", "amax"]),
+                "target_ctor": rng.choice([None, rng.choice(TARGETS), rng.choice(TARGETS)])}
+    T = rng.randint(1, 6)
+    ncell = 1 if expect_error else rng.randint(2, 3)
+    cells = []
+    for j in range(ncell):
+        c = gen_homeo(rng)
+        c["post"] = [[[int(rng.random() < 0.5) for _ in st[0]] for _ in range(c["B"])] for st in (c["post"] * 8)[:T]]
+        for k in ("target", "target_at"):
+            c.pop(k, None)
+        keys = []
+        if j == 1:
+            keys = ["plasticity"] + [k for k in ("target", "param", "reduction") if rng.random() < 0.6]
+        elif j >= 2:
+            keys = [k for k in ("plasticity", "target", "param", "reduction") if rng.random() < 0.5]
+        c["plasticity"], c["param"], c["reduction"] = defaults["plasticity"], defaults["param"], defaults["reduction"]
+        if "plasticity" in keys:
+            c["plasticity"] = (-1 if j == 1 else rng.choice([1, -1])) * (1 if defaults["plasticity"] >= 0 else -1) * rng.choice([1.0, 0.5, 0.3, 1.7])
+        if "param" in keys:
+            c["param"] = rng.choice(["weight", "bias", "delay"])
+        if "reduction" in keys:
+            c["reduction"] = rng.choice(["mean", "sum", "amax"])
+        if "target" in keys:
+            c["target_reg"] = rng.choice([None, rng.choice(TARGETS), rng.choice(TARGETS)])
+        c["x0"] = rng.choice([1.0, 0.5]) if c["param"] == "delay" else rng.choice([0.5, 0.3, 1.0, -0.25])
+        c["override_keys"] = keys
+        c.update(group=gid, family="homeo", defaults=defaults)
+        cells.append(c)
+    mode = rng.choice(["none", "all", "mixed", "mixed"])
+    fwd = [None if mode == "none" or (mode == "mixed" and rng.random() < 0.5) else rng.choice(TARGETS) for _ in range(T)]
+    dflt = [(c["target_reg"] if "target" in c["override_keys"] else defaults["target_ctor"]) for c in cells]
+    if expect_error:
+        # no default anywhere and no explicit target at the last step: forward must raise RuntimeError
+        defaults["target_ctor"] = None
+        cells[0]["override_keys"] = [k for k in cells[0]["override_keys"] if k != "target"]
+        fwd[-1] = None
+        cells[0]["expect_error"] = True
+    elif any(d is None for d in dflt):
+        # a cell without a default target: every call must pass an explicit target
+        fwd = [f if f is not None else rng.choice(TARGETS) for f in fwd]
+    for c in cells:
+        c["fwd_targets"] = fwd
+    annotate_homeo_group(defaults, cells)
+    return cells
+
+
+STDP_KEYS = {"STDP": ["lr_post", "lr_pre", "tc_post", "tc_pre", "mode", "reduction", "delayed"],
+             "MSTDP": ["lr_post", "lr_pre", "tc_post", "tc_pre", "mode", "reduction", "delayed"],
+             "MSTDPET": ["lr_post", "lr_pre", "tc_post", "tc_pre", "tc_elig", "mode", "reduction"],
+             "TripletSTDP": ["lr_post", "lr_post_triplet", "lr_pre", "lr_pre_triplet", "tc_post", "tc_post_slow", "tc_pre",
+                             "tc_pre_slow", "mode", "reduction", "delayed"]}
+STDP_KEYS["StableSTDP"] = STDP_KEYS["STDP"]
+STDP_KEYS["StableTripletSTDP"] = STDP_KEYS["TripletSTDP"]
+
+
+def gen_stdp_group(rng, gid, trainer, signs):
+    """one trainer object (constructor-level hyperparameters = `defaults`) driving 2-3 cells: the first registered without
+    overrides, the second with learning-rate overrides of the OPPOSITE sign mode (plus other overrides), the third with a
+    random subset of every keyword register_cell accepts.  Batch size, number of steps and the reward are common."""
+    base = gen_stdp(rng, trainer, signs)
+    defaults = {k: base[k] for k in ("trainer", "mode", "hp", "delayed", "reduction")}
+    B, T = base["B"], len(base["pre"])
+    cells = []
+    for j in range(rng.randint(2, 3)):
+        c = gen_stdp(rng, trainer, signs)
+        n_in, n_out = c["n_in"], c["n_out"]
+        p = rng.choice([0.2, 0.5, 0.8])
+        c["B"] = B
+        c["pre"] = [[[int(rng.random() < p) for _ in range(n_in)] for _ in range(B)] for _ in range(T)]
+        c["post"] = [[[int(rng.random() < p) for _ in range(n_out)] for _ in range(B)] for _ in range(T)]
+        c["signal"], c["scale"] = base["signal"], base["scale"]
+        hp = dict(defaults["hp"])
+        c.update(mode=defaults["mode"], delayed=defaults["delayed"], reduction=defaults["reduction"])
+        allowed = STDP_KEYS[trainer]
+        keys = []
+        if j == 1:
+            flip = rng.choice([("lr_post",), ("lr_pre",), ("lr_post", "lr_pre")])
+            keys = list(flip) + [k for k in allowed if k not in flip and rng.random() < 0.35]
+        elif j >= 2:
+            keys = [k for k in allowed if rng.random() < 0.5]
+        fresh = gen_hp(rng, *signs)
+        for k in keys:
+            if k == "mode":
+                c["mode"] = rng.choice(["cumulative", "nearest"])
+            elif k == "reduction":
+                c["reduction"] = rng.choice(["sum", "mean", "amax"]) if c["signal"] is None or not isinstance(c["signal"][0], list) else "sum"
+            elif k == "delayed":
+                c["delayed"] = not defaults["delayed"]
+            elif k in ("lr_post", "lr_pre") and j == 1 and k in flip:
+                hp[k] = -abs(fresh[k]) if defaults["hp"][k] >= 0 else abs(fresh[k])
+            else:
+                hp[k] = fresh[k] if k.startswith("tc") or rng.random() < 0.5 else -fresh[k]
+        c["hp"] = hp
+        c["override_keys"] = keys
+        c.update(group=gid, family="stdp", defaults=defaults)
+        cells.append(c)
+    return cells
+
+
+def group_of(cases, c):
+    """the replayable unit of a failing cell: its whole group when it shares the trainer object with other cells"""
+    if c.get("group") is None:
+        return strip(c)
+    members = [x for x in cases if x.get("group") == c["group"]]
+    return {"kind": "group", "family": c["family"], "defaults": c["defaults"], "cells": [strip(x) for x in members],
+            "failing_cell": [id(x) for x in members].index(id(c))}
+
+
+def expand_groups(cases):
+    """replay / corpus form {"kind": "group", ...} -> member cells tagged with a fresh group id"""
+    out, gid = [], 10 ** 6
+    for c in cases:
+        if c.get("kind") == "group":
+            gid += 1
+            for x in c["cells"]:
+                x = copy.deepcopy(x)
+                x.update(group=gid, family=c["family"], defaults=c["defaults"])
+                out.append(x)
+            if c["family"] == "homeo":
+                annotate_homeo_group(c["defaults"], out[-len(c["cells"]):])
+        else:
+            out.append(c)
+    return out
+
+
+def run_impl_grouped(cases):
+    """cells with the same "group" run under ONE trainer object; results are scattered back into case order"""
+    payload, slots, seen = [], [], {}
+    for c in cases:
+        gid = c.get("group")
+        if gid is None:
+            slots.append((len(payload), None))
+            payload.append(c)
+        else:
+            if gid not in seen:
+                seen[gid] = len(payload)
+                payload.append({"kind": "group", "family": c["family"], "defaults": c["defaults"], "cells": []})
+            k = seen[gid]
+            slots.append((k, len(payload[k]["cells"])))
+            payload[k]["cells"].append({kk: v for kk, v in c.items() if kk not in ("defaults", "tg_used", "tg_doc")})
+    res = F.run_impl(IMPL, {"cases": payload})
+    return [res[k] if j is None else res[k][j] for (k, j) in slots]
+
+
 # ------------------------------------------------------------------ driver
-def known_listed():
-    return any(k.get("property") == ID and (k.get("match") or {}).get("kind") == FINDING_KIND
+def known_listed(kind=FINDING_KIND):
+    return any(k.get("property") == ID and (k.get("match") or {}).get("kind") == kind
                for k in F.load_known().get("findings", []))
 
 
@@ -573,6 +772,13 @@ def ensure_exec():
 
 def strip(c):
     c = copy.deepcopy(c)
+    if c.get("kind") == "group":
+        c["cells"] = [strip(x) for x in c["cells"]]
+        return c
+    member = c.get("group") is not None
+    for k in ("defaults", "group", "family", "tg_used", "tg_doc"):
+        if member or k.startswith("tg_"):
+            c.pop(k, None)
     for st in c.get("steps", []) if c.get("kind") == "cell" else []:
         st.pop("delay_seen", None)
     return c
@@ -583,11 +789,13 @@ REPAIRED = [0]
 
 def evaluate(cases):
     """-> impl results, mismatches, oracle failures (all, including instances of the known finding)"""
-    impl = F.run_impl(IMPL, {"cases": cases})
+    impl = run_impl_grouped(cases)
     terms, spans = [], []
     cell_terms, cell_idx, cell_aux = [], [], {}
     for i, (c, r) in enumerate(zip(cases, impl)):
-        if c["kind"] == "homeo":
+        if c.get("expect_error") or (c["kind"] == "homeo" and "tg_used" in c and None in c["tg_used"]):
+            spans.append(None)
+        elif c["kind"] == "homeo":
             n_tot, groups, e2g = homeo_geometry(c)
             spans.append((len(terms), len(groups)))
             terms += [q_homeo(c, u) for u in groups]
@@ -611,10 +819,17 @@ def evaluate(cases):
     cm = dict(zip(cell_idx, cmodel))
     mismatches, fails = [], []
     for i, (c, r) in enumerate(zip(cases, impl)):
+        if c.get("expect_error"):
+            # no default target anywhere and forward(target=None): the documented behaviour is a RuntimeError
+            if r.get("ok") or r.get("err") != 1:
+                d = {"what": "forward(target=None) without any default target must raise RuntimeError", "got": r.get("msg", "no error")}
+                mismatches.append({"case": group_of(cases, c), "detail": d})
+                fails.append({"case": group_of(cases, c), "detail": d, "signature": {"kind": "missing_target_error"}})
+            continue
         if not r.get("ok"):
             d = {"what": "the implementation raised on a valid configuration", "msg": r.get("msg"), "trace": r.get("trace", "")[-500:]}
-            mismatches.append({"case": strip(c), "detail": d})
-            fails.append({"case": strip(c), "detail": d, "signature": {"kind": "raised", "stream": c["kind"]}})
+            mismatches.append({"case": group_of(cases, c), "detail": d})
+            fails.append({"case": group_of(cases, c), "detail": d, "signature": {"kind": "raised", "stream": c["kind"]}})
             continue
         if c["kind"] == "homeo":
             a, n = spans[i]
@@ -626,18 +841,20 @@ def evaluate(cases):
                 REPAIRED[0] += 1
                 d = None
             if d is not None:
-                mismatches.append({"case": c, "detail": d})
+                mismatches.append({"case": group_of(cases, c), "detail": d})
             for det, sg in ofl:
-                fails.append({"case": c, "detail": det, "signature": sg})
+                fails.append({"case": group_of(cases, c), "detail": det,
+                              "signature": dict(sg, overrides=bool(c.get("override_keys"))) if c.get("group") is not None else sg})
         elif c["kind"] == "stdp":
             a, n = spans[i]
             ents = stdp_entries(c)
             d = compare_stdp(c, r, ents, model[a:a + n])
             if d is not None:
-                mismatches.append({"case": c, "detail": d})
+                mismatches.append({"case": group_of(cases, c), "detail": d})
             o = oracle_stdp(c, r, ents)
             if o is not None:
-                fails.append({"case": c, "detail": o[0], "signature": o[1]})
+                fails.append({"case": group_of(cases, c), "detail": o[0],
+                              "signature": dict(o[1], overrides=bool(c.get("override_keys"))) if c.get("group") is not None else o[1]})
         else:
             g, o, ri = cell_aux[i]
             tm = cm[i]
@@ -689,12 +906,20 @@ def run(ctx):
     quick = ctx["tier"] == "quick"
     c18.STATS.clear()
     REPAIRED[0] = 0
-    n_h, n_s, n_c = (150, 150, 24) if quick else (1500, 1500, 400)
-    cases = load_corpus() + [copy.deepcopy(WITNESS)]
+    n_h, n_s, n_c = (90, 70, 24) if quick else (1200, 1200, 400)
+    n_hg, n_sg = (36, 48) if quick else (500, 600)
+    cases = expand_groups(load_corpus()) + [copy.deepcopy(WITNESS)]
     cases += [gen_homeo(rng) for _ in range(n_h)]
+    gid = 0
+    for k in range(n_hg):       # one LinearHomeostasis object, several cells with overrides, all target combinations
+        gid += 1
+        cases += gen_homeo_group(rng, gid, expect_error=(k % 12 == 11))
     # every trainer x sign mode at least twice
-    cases += [gen_stdp(rng, tr, sg) for tr in TRAINERS for sg in SIGNS for _ in range(2 if quick else 8)]
+    cases += [gen_stdp(rng, tr, sg) for tr in TRAINERS for sg in SIGNS for _ in range(1 if quick else 6)]
     cases += [gen_stdp(rng) for _ in range(n_s)]
+    for k in range(n_sg):       # one trainer object, several cells with overrides: every trainer x default sign mode in turn
+        gid += 1
+        cases += gen_stdp_group(rng, gid, TRAINERS[k % 6], SIGNS[(k // 6) % 4])
     cases += exhaustive_stdp(2 if quick else 3)
     cases += [gen_cell(rng, cls, sg) for cls in c18.TWO + c18.KER + c18.THREE for sg in SIGNS for _ in range(2 if quick else 12)]
     cases += [c18.gen_case(rng) for _ in range(n_c)]
@@ -702,17 +927,26 @@ def run(ctx):
     impl, mismatches, fails = evaluate(cases)
     if not ok_exec:
         mismatches.insert(0, {"case": None, "detail": "executable model does not build: " + mk_out[-1500:]})
-    # the known finding: reported through oracle_failures once known_findings.json lists it, as FINDING-CANDIDATE before
+    # findings of the unchanged tree: reported through oracle_failures once known_findings.json lists them (-> KNOWN-FINDING),
+    # printed as FINDING-CANDIDATE before
+    nh = sum(1 for c in cases if c['kind'] == 'homeo')
     cands = [f for f in fails if (f.get("signature") or {}).get("kind") == FINDING_KIND]
-    others = [f for f in fails if (f.get("signature") or {}).get("kind") != FINDING_KIND]
-    oracle_failures = list(others)
-    if cands and known_listed():
+    carry = [f for f in fails if (f.get("signature") or {}).get("kind") == CARRY_KIND]
+    oracle_failures = [f for f in fails if (f.get("signature") or {}).get("kind") not in (FINDING_KIND, CARRY_KIND)]
+    if cands and known_listed(FINDING_KIND):
         oracle_failures += cands[:3]
     elif cands:
         print(f"FINDING-CANDIDATE: property={ID} LinearHomeostasis hands a NEGATIVE-valued depressing part (k.clamp_max(0)) to the "
-              f"updater, so pos - neg = |k| and the parameter moves away from the target ({len(cands)} of "
-              f"{sum(1 for c in cases if c['kind'] == 'homeo')} homeostasis cases; signature kind={FINDING_KIND}; NOT yet listed "
-              f"in known_findings.json; witness: LinearDense 1x1, target 0.5, plasticity 1, one step with a spike -> weight +1)")
+              f"updater, so pos - neg = |k| and the parameter moves away from the target ({len(cands)} of {nh} homeostasis cases; "
+              f"signature kind={FINDING_KIND}; NOT yet listed in known_findings.json; witness: LinearDense 1x1, target 0.5, "
+              f"plasticity 1, one step with a spike -> weight +1)")
+    if carry and known_listed(CARRY_KIND):
+        oracle_failures += carry[:3]
+    elif carry:
+        print(f"FINDING-CANDIDATE: property={ID} LinearHomeostasis.forward(target=None) rebinds its `target` argument to the FIRST "
+              f"cell's default inside the loop over cells, so every later cell of the trainer is regulated toward the first cell's "
+              f"target instead of its own default ({len(carry)} cells in groups with differing per-cell targets; signature "
+              f"kind={CARRY_KIND}; NOT yet listed in known_findings.json; witness: corpus/C09/04_homeostasis_target_carryover.json)")
     homeo = [c for c in cases if c["kind"] == "homeo"]
     stdp = [c for c in cases if c["kind"] == "stdp"]
     cells = [c for c in cases if c["kind"] == "cell"]
@@ -733,7 +967,12 @@ def run(ctx):
                  "scalar and per-sample rewards of both signs and zero) with default / upper-lower (multiplicative, sharp, scaled) "
                  "/ full bounds installed on the accumulator, exhaustive 1x1 histories of length <= %d for every trainer x sign "
                  "mode (quick: the four unstable trainers), and the seven delay-adjusted / kernel trainers x four sign modes "
-                 "through the C18 generator; non-trivial = >= 2 steps (STDP: "
+                 "through the C18 generator; plus GROUPS: one LinearHomeostasis / STDP-family trainer object driving 2-3 cells "
+                 "registered with per-cell keyword overrides of every hyperparameter register_cell accepts (learning rates of the "
+                 "opposite sign mode, time constants, trace mode, batch reduction, delayed; plasticity, target, param), one cell "
+                 "without overrides, all combinations of constructor / per-cell / forward(target) targets incl. None and the "
+                 "RuntimeError when no target exists; the oracle uses each cell's effective hyperparameters; "
+                 "non-trivial = >= 2 steps (STDP: "
                  "with a pre and a post spike)" % (2 if quick else 3)),
         "samples": [strip(c) for c in (homeo[1:2] + stdp[:1])],
         "mismatches": mismatches, "oracle_failures": oracle_failures,
@@ -742,6 +981,19 @@ def run(ctx):
         "homeo_param_distribution": dict(Counter(c["param"] for c in homeo)),
         "homeo_conn_distribution": dict(Counter(c["conn"] for c in homeo)),
         "homeo_cases_showing_the_finding": len(cands),
+        "homeo_cells_showing_target_carryover": len(carry),
+        "groups_one_trainer_several_cells": len({c["group"] for c in cases if c.get("group") is not None}),
+        "cells_registered_with_overrides": sum(1 for c in cases if c.get("override_keys")),
+        "override_key_distribution": dict(Counter(k for c in cases for k in c.get("override_keys", []))),
+        "stdp_cells_whose_sign_mode_differs_from_the_trainer_defaults": sum(
+            1 for c in cases if c["kind"] == "stdp" and c.get("group") is not None and
+            ((c["hp"]["lr_post"] >= 0) != (c["defaults"]["hp"]["lr_post"] >= 0) or (c["hp"]["lr_pre"] >= 0) != (c["defaults"]["hp"]["lr_pre"] >= 0))),
+        "homeo_target_combinations": dict(Counter(
+            "ctor=%s/cell=%s/forward=%s" % ("set" if c["defaults"].get("target_ctor") is not None else "None",
+                                            ("absent" if "target" not in c["override_keys"] else ("None" if c.get("target_reg") is None else "set")),
+                                            "mixed" if len({f is None for f in c["fwd_targets"]}) == 2 else ("None" if c["fwd_targets"][0] is None else "set"))
+            for c in cases if c["kind"] == "homeo" and c.get("group") is not None)),
+        "expected_error_groups": sum(1 for c in cases if c.get("expect_error")),
         "homeo_cases_where_impl_satisfies_the_oracle_but_not_the_defect_model": REPAIRED[0],
         "finding_listed": known_listed(),
         "stdp_trainer_distribution": dict(Counter(c["trainer"] for c in stdp)),
@@ -753,8 +1005,10 @@ def run(ctx):
 
 
 def _fails(case):
-    _, mm, of = evaluate([copy.deepcopy(case)])
-    of = [f for f in of if (f.get("signature") or {}).get("kind") != FINDING_KIND or not known_listed()]
+    cs = expand_groups([copy.deepcopy(case)])
+    _, mm, of = evaluate(cs)
+    of = [f for f in of if not ((f.get("signature") or {}).get("kind") in (FINDING_KIND, CARRY_KIND)
+                                and known_listed((f.get("signature") or {}).get("kind")))]
     if of:
         return of[0]["detail"]
     if mm:
@@ -762,17 +1016,29 @@ def _fails(case):
     return None
 
 
+def _shorten(case):
+    """the same case without its last step (None when it has a single step)"""
+    c2 = copy.deepcopy(case)
+    cells = c2["cells"] if c2["kind"] == "group" else [c2]
+    for x in cells:
+        keys = {"homeo": ("post", "fwd_targets"), "stdp": ("pre", "post", "signal"), "cell": ("steps",)}[x.get("kind", "cell")]
+        if len(x[keys[0]]) <= 1:
+            return None
+        for kk in keys:
+            if x.get(kk) is not None:
+                x[kk] = x[kk][:-1]
+    return c2
+
+
 def minimise(case):
     d = _fails(case)
     if d is None:
         return case, None
     best = case
-    key = {"homeo": "post", "stdp": "pre", "cell": "steps"}[case["kind"]]
-    while len(best[key]) > 1:
-        c2 = copy.deepcopy(best)
-        for kk in (("post",) if case["kind"] == "homeo" else ("pre", "post", "signal") if case["kind"] == "stdp" else ("steps",)):
-            if c2.get(kk) is not None:
-                c2[kk] = c2[kk][:-1]
+    while True:
+        c2 = _shorten(best)
+        if c2 is None:
+            break
         d2 = _fails(c2)
         if d2 is None:
             break
